@@ -297,3 +297,23 @@ Definition proj (k : key) (s : st) : solo :=
 
 (* everything ever pushed into a subscription's channel, in order *)
 Definition pushed (c : chan) : list nat := ch_got c ++ ch_buf c.
+
+(* ------------------------------------------------------------------ the ORIGINAL send (before
+   the repair of F10), kept only to exhibit the refutation of isolation on it: the loop
+   returns at the first query whose Matches fails. *)
+Section Original.
+  Variable Q : nat -> query.
+  Variable ord : forall A : Type, nat -> list A -> list A.
+
+  Definition send_query_original (seed m : nat) (ev : events) (acc : st * bool) (e : nat * list nat)
+    : st * bool :=
+    let '(s, aborted) := acc in
+    if aborted then acc else
+    match matches (Q (fst e)) ev with
+    | MErr => (s, true)                                   (* return fmt.Errorf(...) *)
+    | _ => (send_query Q ord seed m ev s e, false)
+    end.
+
+  Definition send_original (seed m : nat) (ev : events) (s : st) : st :=
+    fst (fold_left (send_query_original seed m ev) (ord _ seed (subs s)) (s, false)).
+End Original.
